@@ -299,6 +299,9 @@ func c04Configs(tier string) []c04Cfg {
 		{{qCreateNew, qUpdOK}, {qCreateNew, qDelMissing}},
 	}
 	out = append(out, c04Cfg{threads: [][]c04Req{{qCreateNew}, {qCreateNew}, {qCreateNew}}, faultAt: -1, light: true})
+	// one write stalled in its storage transaction while a second client consumes many later revisions
+	// (failed deletes are dealt and notified like any write): slot arithmetic of the result ring
+	out = append(out, c04Cfg{threads: [][]c04Req{{qCreateNew}, {qDelMissing, qDelMissing, qDelMissing, qDelMissing, qDelMissing, qDelMissing, qDelMissing, qDelMissing, qDelMissing}}, faultAt: -1, light: true})
 	for _, t := range conc {
 		out = append(out, c04Cfg{threads: t, faultAt: -1})
 		for _, f := range faults {
